@@ -162,8 +162,14 @@ def main():
                 group.makegateway("popen//id=%s" % gid)
                 emit(event="replaced", id=gid)
         t0 = time.monotonic()
-        group.terminate(case["timeout"])
-        emit(event="terminate_done", seconds=round(time.monotonic() - t0, 3), len_group=len(group))
+        raised = None
+        try:
+            group.terminate(case["timeout"])
+        except Exception as e:  # noqa: what terminate() lets out is for the monitor to judge, not a set-up problem
+            import traceback
+
+            raised = f"{type(e).__name__}: {str(e)[:200]} | {traceback.format_exc()[-500:]}"
+        emit(event="terminate_done", seconds=round(time.monotonic() - t0, 3), len_group=len(group), raised=raised)
         # stay around briefly so the harness can inspect /proc while we are still the parent
         time.sleep(case.get("linger", 1.5))
         os._exit(0)
